@@ -3,10 +3,10 @@ open TdModel TdModel.C31
 
 /-! Line protocol (names are opaque tokens — the harness sends hex of the base name):
 
-* `crash <path> <newhex> <ents> <op>…` → `atomic=<0|1> fresh=<0|1> n=<k> <tok>…`, one token per crash state in
+* `crash <path> <newhex> <ents> <op>…` → `atomic=<0|1> fresh=<0|1> durable=<0|1> n=<k> <tok>…`, one token per crash state in
   order: `<class of readCur>/<classes of plReads joined by +>/<listing>`
 * `final <path> <newhex> <ents> <op>…` → one token for the final state
-* `shape <path> <newhex> <ents> <op>…` → `atomic=<0|1> fresh=<0|1>`
+* `shape <path> <newhex> <ents> <op>…` → `atomic=<0|1> fresh=<0|1> durable=<0|1>`
 * `plreads <idx> <path> <newhex> <ents> <op>…` → the distinct power-loss contents of `path` in crash state `idx`
 * `impl <fd> <dfd> <tmp> <path> <chunkhex,…>` → the trace predicted from the regenerated call list
 
@@ -85,11 +85,13 @@ def handle (line : String) : String :=
       let old := readCur q.s0 q.path
       let sts := crashStates q.tr q.s0
       " ".intercalate (["atomic=" ++ b01 (isAtomicReplace q.tr q.path q.new), "fresh=" ++ b01 (freshTmp q.tr q.s0),
+        "durable=" ++ b01 (isDurableReplace q.tr q.path q.new),
         s!"n={sts.length}"] ++ sts.map fun s => token s q.path old q.new)
     | none => "bad-op"
   | "shape" :: rest =>
     match parseReq rest with
-    | some q => "atomic=" ++ b01 (isAtomicReplace q.tr q.path q.new) ++ " fresh=" ++ b01 (freshTmp q.tr q.s0)
+    | some q => "atomic=" ++ b01 (isAtomicReplace q.tr q.path q.new) ++ " fresh=" ++ b01 (freshTmp q.tr q.s0) ++
+        " durable=" ++ b01 (isDurableReplace q.tr q.path q.new)
     | none => "bad-op"
   | "final" :: rest =>
     match parseReq rest with
